@@ -532,7 +532,17 @@ func WalkEnts(fsys apkfs.FullFS, paths []string, hdrs []*tar.Header, desc any) (
 // and recomputes digest / diff-id / size against what the v1.Layer advertises
 // (byte-level part: exploration, reported as IMPL-VIOLATION lines).
 func ReadLayer(layer v1.Layer, file string, desc any) (ents []Ent, plainLen int, ok bool) {
-	raw, err := os.ReadFile(file)
+	var raw []byte
+	var err error
+	if file != "" {
+		raw, err = os.ReadFile(file)
+	} else {
+		var rc io.ReadCloser
+		if rc, err = layer.Compressed(); err == nil {
+			raw, err = io.ReadAll(rc)
+			rc.Close()
+		}
+	}
 	if err != nil {
 		ImplViolation("layer-file-missing", map[string]any{"case": desc, "err": err.Error()})
 		return nil, 0, false
